@@ -549,6 +549,9 @@ class CompleteStageHandler(
                 # Atomic: store stage + cancel + complete workflow
                 with self.repository.transaction(self.queue) as txn:
                     txn.store_stage(stage)
+                    # The failed attempt's own event was rolled back with its
+                    # transaction; record the failure that is committed here.
+                    self._record_completion_event(stage, WorkflowStatus.TERMINAL)
                     txn.push_message(
                         CancelStage(
                             execution_type=message.execution_type,
